@@ -142,4 +142,35 @@ Proof.
     rewrite (IH (fun y => tl (F y)) (pred L)) by (intros y0; destruct (F y0) eqn:E; specialize (HL y0); rewrite E in HL; simpl in *; subst; reflexivity).
     rewrite tl_IntV. rewrite nth_IntV_all by exact HL. reflexivity.
 Qed.
+
+(* ---------- Kronecker product: length and entries ---------- *)
+Lemma nth_nil0 k : nth k (@nil R) 0 = 0.
+Proof. destruct k; reflexivity. Qed.
+Lemma nth_scale k a y : nth k (scale a y) 0 = a * nth k y 0.
+Proof. revert k; induction y as [|b y IH]; intros [|k]; simpl; try ring. apply IH. Qed.
+Lemma length_scale a y : length (scale a y) = length y.
+Proof. apply map_length. Qed.
+Lemma kron_cons a x y : kron (a :: x) y = scale a y ++ kron x y.
+Proof. reflexivity. Qed.
+Lemma kron_nil_r x : kron x [] = [].
+Proof. induction x as [|a x IH]; [reflexivity | rewrite kron_cons; exact IH]. Qed.
+Lemma length_kron x y : length (kron x y) = (length x * length y)%nat.
+Proof. induction x as [|a x IH]; [reflexivity|]. rewrite kron_cons, app_length, length_scale, IH. reflexivity. Qed.
+(* entry k of [kron x y] is x_(k / |y|) * y_(k mod |y|); holds for every k and every y (also y = []) *)
+Lemma nth_kron k x y : nth k (kron x y) 0 = nth (k / length y) x 0 * nth (k mod length y) y 0.
+Proof.
+  destruct (Nat.eq_dec (length y) 0%nat) as [Hy0 | Hy].
+  - destruct y as [|b y]; [|discriminate]. rewrite kron_nil_r. simpl length.
+    rewrite !nth_nil0. ring.
+  - revert k; induction x as [|a x IH]; intros k.
+    + simpl kron. rewrite !nth_nil0. ring.
+    + rewrite kron_cons. destruct (Nat.lt_ge_cases k (length y)) as [Hlt | Hge].
+      * rewrite app_nth1 by (rewrite length_scale; exact Hlt).
+        rewrite Nat.div_small, Nat.mod_small by exact Hlt. simpl. apply nth_scale.
+      * rewrite app_nth2 by (rewrite length_scale; exact Hge). rewrite length_scale, IH.
+        assert (Ek : k = (k - length y + 1 * length y)%nat) by lia.
+        rewrite Ek at 3 4. rewrite Nat.div_add, Nat.mod_add by exact Hy.
+        replace (((k - length y) / length y + 1)%nat) with (S ((k - length y) / length y)) by lia.
+        reflexivity.
+Qed.
 End Base.
